@@ -41,6 +41,13 @@ C16 written from the equations, piecewise linear).  State carried from one
 function to the next (module-level memo, mutable default, id() reuse) shows up
 only there.  The case holds the sequence and everything built before it, so
 its replay rebuilds the history in a fresh process.
+Extremes and size (oracle only; nothing of these stages is handed to Coq, where
+reading the literals would dominate): compute_rise_curve on parameter sets
+referred to a datum +-1e6 mm away and on grids whose steps are 1e-3 .. 1e-6 of
+the magnitude of the levels (each with a refinement); `spowtd simulate rise` in
+both modes on a dataset whose master rise curve has more than 1024 levels
+(thorough: 1000 .. 10000; harness.gen_pest.gen_long_curves_record), the table
+judged against the master curve of the base tables.
 """
 import io
 import math
@@ -158,10 +165,15 @@ def oracle_curve(obj, knots, grid, mean, W, out, case, what):
         return
     _, total = P14.area(obj, knots, min(grid), max(grid)) if n > 1 else (0.0, 0.0)
     scale = max(total, abs(mean), 1e-6)
+    # binary64 rounding inside FITPACK's splint is absolute - a few hundred ulp of the area under the whole spline
+    # (here: of the box knot range x largest knot value), however narrow the step (measured: 4.6e-13 mm on a step
+    # of 1e-4 mm under a spline of area 150 mm); it only matters on grids whose whole range holds less than 1e-4
+    # of that area
+    floor = 1e-13 * (knots[-1] - knots[0]) * max(abs(fl(obj(x))) for x in knots) if len(knots) > 1 else 0.0
     pairs = [(i, i + 1) for i in range(n - 1)] + [(0, n - 1), (n // 2, 0), (n - 1, n // 3)]
     for i, j in pairs:
         ar, _ = area_between(obj, knots, grid[i], grid[j])
-        if not abs((W[j] - W[i]) - ar) <= 1e-9 * scale:
+        if not abs((W[j] - W[i]) - ar) <= 1e-9 * scale + floor:
             out.violation('oracle', '%s: W(%r) - W(%r) = %r but the integral of specific yield between '
                           'these levels is %r' % (what, grid[j], grid[i], W[j] - W[i], ar), case=case)
             break
@@ -446,7 +458,9 @@ def base_oracle(base, rows, what, out, case):
                       'assembled by `rise` (tables rising_interval, rising_interval_zeta, zeta_grid) has %d levels '
                       '%r .. %r mm, the output lists %d; missing: %s; listed but not in the curve: %r'
                       % (what, len(want), want[0] if want else None, want[-1] if want else None, len(have),
-                         ', '.join('level %r mm (crossed by %d rises)' % m for m in missing) or 'none', extra),
+                         (', '.join('level %r mm (crossed by %d rises)' % m for m in missing[:6])
+                          + (' and %d more up to level %r mm' % (len(missing) - 6, missing[-1][0])
+                             if len(missing) > 6 else '')) or 'none', extra[:6]),
                       case=case)
         return False
     if have != want:
@@ -828,6 +842,181 @@ def check_history(cases, out):
             history_cli(case, out)
 
 
+# ------------------------------------------------------------- extremes (function level, oracle only)
+
+# water levels referred to a distant datum (1 km above / below it, and powers of two of that size), and the
+# relative size of a grid step: 1e-3 .. 1e-6 of the magnitude of the level
+DATUMS = [1e6, -1e6, 1048576.0, -1048576.0, 3e5, -1e5]
+REL_STEPS = [1e-3, 1e-4, 1e-5, 1e-6, 3e-6, 3e-5]
+
+
+def extreme_grid(rng, knots, kind, rel):
+    """An increasing grid of 4-12 levels whose steps are about `rel` x the magnitude of the levels.
+    kind: 'inside' (between the knots), 'low' / 'high' (across the lowest / highest knot), 'below' / 'above'."""
+    xmin, xmax = knots[0], knots[-1]
+    span = xmax - xmin
+    n = rng.randrange(4, 13)
+    centre = {'inside': xmin + span * rng.uniform(0.15, 0.85), 'low': xmin, 'high': xmax,
+              'below': xmin - span * rng.uniform(0.05, 0.5), 'above': xmax + span * rng.uniform(0.05, 0.5)}[kind]
+    mag = max(abs(centre), 50.0)
+    even = rng.random() < 0.5
+    step = mag * rel * rng.uniform(0.3, 1.0)
+    z = centre - step * rng.uniform(0.2, 0.8) * n
+    grid = [z]
+    for _ in range(n - 1):
+        z += step if even else step * rng.choice([0.25, 0.5, 1.0, 1.0, 2.0])
+        grid.append(z)
+    grid = sorted(set(float(g) for g in grid))
+    return grid if len(grid) >= 2 else [grid[0], grid[0] + mag * rel]
+
+
+def refine_between(rng, grid):
+    """Every level kept, 0-3 levels inserted inside every step (nothing beyond the ends)."""
+    out = set(grid)
+    for a, b in zip(grid, grid[1:]):
+        for _ in range(rng.choice([0, 1, 1, 2, 3])):
+            out.add(a + (b - a) * rng.choice([0.5, 0.25, 0.75, rng.uniform(0.05, 0.95)]))
+    return sorted(out)
+
+
+def extreme_cases(seed, tier):
+    """Specific-yield functions and grids at the extremes: (a) the whole parameter set referred to a distant datum
+    (knots shifted by +-1e6 mm and the like; grid steps of 1 .. 250 mm there), (b) ordinary parameter sets with
+    grid steps of 1e-3 .. 1e-6 of the level's magnitude, (c) PEATCLSM (knots fixed by the class) on grids far
+    beyond its knots."""
+    cases = []
+    kinds = ['inside', 'low', 'high', 'inside', 'below', 'above']
+    for k in range(18 if tier == 'quick' else 180):
+        rng = C.rng_for(seed, PROP, 'extreme', k)
+        rel = REL_STEPS[k % len(REL_STEPS)]
+        kind = kinds[(k // 2) % len(kinds)]
+        if k % 3 == 0:
+            ks = GS.short_variant(GS.gen_knots(rng, rng.choice(['param', 'wide', 'full', 'wiggly'])))
+            datum = DATUMS[(k // 3) % len(DATUMS)]
+            spec = dict(type='spline', knots=[x + datum for x in ks['knots']], values=ks['values'])
+            what = 'datum%+g' % datum
+            if any(b <= a for a, b in zip(spec['knots'], spec['knots'][1:])):
+                continue
+            grid = extreme_grid(rng, spec['knots'], kind, rng.choice([1e-6, 1e-5, 5e-5, 2.5e-4]))
+        elif k % 3 == 1:
+            ks = GS.gen_knots(rng, rng.choice(['param', 'wide', 'full', 'wiggly']))
+            spec = dict(type='spline', knots=ks['knots'], values=ks['values'])
+            what = 'fine-steps'
+            grid = extreme_grid(rng, spec['knots'], kind, rel)
+        else:
+            spec = gen_peat(rng)
+            far = k % 2 == 0
+            what = 'peatclsm:' + ('far-beyond-knots' if far else 'fine-steps')
+            if far:
+                datum = DATUMS[(k // 3) % len(DATUMS)]
+                grid = extreme_grid(rng, [datum - 1.0, datum + 1.0], 'inside', rng.choice([1e-6, 1e-5, 2.5e-4]))
+            else:
+                grid = extreme_grid(rng, [-995.0, 1005.0], kind, rel)
+        cases.append(dict(level='FL-extreme', what=what, where=kind, spec=spec, grid=grid,
+                          mean=rng.choice([0.0, 12.5, -40.0]), grid2=refine_between(rng, grid)))
+    return cases
+
+
+def check_extreme(case, out):
+    """compute_rise_curve on an extreme grid and on a refinement, judged by the oracle alone (area under the
+    object's own __call__ by Gauss-Legendre between the knots; refinement; monotonicity)."""
+    spec, grid, grid2, mean = case['spec'], case['grid'], case['grid2'], case['mean']
+    obj = build_sy(spec)
+    knots, _, _ = knots_of(spec, obj)
+    res = impl_curve(obj, grid, mean, out, case)
+    res2 = impl_curve(obj, grid2, mean, out, case, 'compute_rise_curve (refined grid)')
+    out.evaluations += 2
+    steps = [b - a for a, b in zip(grid, grid[1:])]
+    rel = min(steps) / max(abs(z) for z in grid)
+    out.count('FL-extreme:%s:%s' % (case['what'], case['where']))
+    out.count('FL-extreme:smallest step / level magnitude <= 1e%d' % math.ceil(math.log10(rel)))
+    if res[0] != 'ok' or res2[0] != 'ok':
+        out.violation('oracle', 'compute_rise_curve raised %s on grid %r' % (res[1] if res[0] != 'ok' else res2[1], grid),
+                      case=case)
+        return
+    before = len(out.violations)
+    scale = oracle_curve(obj, knots, grid, mean, res[1], out, case, 'compute_rise_curve (%s)' % case['what'])
+    oracle_curve(obj, knots, grid2, mean, res2[1], out, case, 'compute_rise_curve (%s, refined grid)' % case['what'])
+    if scale is not None:
+        oracle_refinement(grid, res[1], grid2, res2[1], scale, out, case)
+    if len(out.violations) == before and rel <= 1e-4:
+        out.nontriv(('x', json_key(spec), tuple(grid)))
+
+
+# ------------------------------------------------------------- long master curves (command level, oracle only)
+
+def assemble_long(src):
+    d = D.scratch(PROP, 'cl_long')
+    rec = src['rec']
+    db, _, exc = D.load(GP.to_dataset(rec), d)
+    if exc is not None:
+        raise RuntimeError('load failed: %r' % exc)
+    for step in ('classify', 'set-zeta-grid', 'rise'):
+        _, exc, _ = D.cli(GP.step_argv(step, db, rec))
+        if exc is not None:
+            raise RuntimeError('%s failed: %r' % (step, exc))
+    return db, d
+
+
+def long_source(rng, nlevels, out):
+    """A dataset whose master rise curve (measured on the base tables) has more than `nlevels` levels."""
+    rec = GP.gen_long_curves_record(rng, nlevels)
+    for _ in range(4):
+        src = dict(kind='long', rec=rec)
+        db, _ = assemble_long(src)
+        levels = [z for z, _, _ in read_base(db)]
+        if len(levels) > nlevels:
+            return src, levels
+        out.count('CL-long:step-halved')
+        rec = GP.gen_long_curves_record(rng, nlevels, rec=rec)
+    raise RuntimeError('no record with more than %d rise levels' % nlevels)
+
+
+def check_long(case, out):
+    """`spowtd simulate rise` in both output modes on a long master curve, judged by the oracle alone: the
+    levels and the measured storage of the table against the master curve of the BASE tables, the vector against
+    the table, the simulated column against the area under the specific yield, its mean."""
+    db, d = assemble_long(case['src'])
+    view, base = read_view(db), read_base(db)
+    for size in GP.BLOCK_SIZES:
+        if len(base) > size:
+            out.count('CL-long:master rise curve of more than %d levels' % size)
+    out.count('CL-long:levels', len(base))
+    if not view:
+        out.violation('oracle', 'the master rise curve assembled by `rise` has %d levels (base tables), the view '
+                      'average_rising_depth that `simulate rise` reads has none' % len(base), case=case)
+        return
+    spec = case['spec']
+    out.evaluations += 2
+    out.count('CL-long:%s' % spec['type'])
+    tab_res = run_cli(db, d, spec, False)
+    obs_res = run_cli(db, d, spec, True)
+    if tab_res[0] != 'ok' or obs_res[0] != 'ok':
+        bad = tab_res if tab_res[0] != 'ok' else obs_res
+        out.violation('oracle', '`spowtd simulate rise` raised %s: %r on an assembled rise curve of %d levels'
+                      % (bad[1], bad[2], len(base)), case=case)
+        return
+    if cl_oracle(view, tab_res[1], obs_res[1], obs_res[2], spec, out, case, base=base) and len(base) > 1000:
+        out.nontriv(('long', len(base), json_key(spec)))
+
+
+def long_cases(seed, tier, out):
+    cases = []
+    targets = [1024] if tier == 'quick' else [1000, 1024, 2048, 4096, 8192, 10000]
+    for k, target in enumerate(targets):
+        rng = C.rng_for(seed, PROP, 'long', k)
+        try:
+            src, levels = long_source(rng, target, out)
+        except RuntimeError as e:
+            out.count('CL-long:not-assembled')
+            out.notes.append('long dataset %d not assembled: %s' % (k, e))
+            continue
+        kind = CL_KINDS[(seed + k) % 4]
+        spec = spec_for_levels(rng, levels[0], levels[-1], kind) if (seed + k) % 3 else gen_peat(rng)
+        cases.append(dict(level='CL-long', src=src, spec=spec, target=target))
+    return cases
+
+
 # ------------------------------------------------------------- driver
 
 def gen_specs(rng, n):
@@ -874,6 +1063,11 @@ def run(ctx, out):
     run_shards('cl_tab', tab, tmeta, out, 'cl_tab', 4)
     run_shards('cl_exact', exact, emeta, out, 'cl_exact', 2)
     cl_empty(out, 'cl_empty')
+    # extremes and long master curves: judged by the oracle alone (nothing of them goes to Coq)
+    for case in extreme_cases(seed, tier):
+        check_extreme(case, out)
+    for case in long_cases(seed, tier, out):
+        check_long(case, out)
     out.rule = ('FL: compute_rise_curve on spline (4-9 knots, six kinds, short-binary variants) and PEATCLSM '
                 '(published + random admissible parameters) objects x grids of seven placements relative to the '
                 'knots, each with a refinement; CL: `spowtd simulate rise` with and without --observations on '
@@ -888,7 +1082,12 @@ def run(ctx, out):
                 'sequences of 3-5 functions built in one process (spline: eight kinds of sharing; PEATCLSM: same soil '
                 '/ different sd, same sd / one soil parameter changed) on one grid reaching beyond all knots, and '
                 '`simulate rise` run 9 times in-process on one database with parameter files differing in sd / '
-                'theta_s / spline end values.')
+                'theta_s / spline end values. Extremes (oracle only, not sent to Coq): parameter sets referred to a '
+                'datum +-1e6 mm away (grid steps 1e-6 .. 2.5e-4 of the level), ordinary sets and PEATCLSM on grids with '
+                'steps of 1e-3 .. 1e-6 of the level magnitude, each with a refinement. Long curves (oracle only, not '
+                'sent to Coq: reading the literals would dominate): `simulate rise` in both modes on a dataset whose '
+                'master rise curve has more than 1024 levels (thorough: 1000 .. 10000), table judged against the base '
+                'tables.')
     out.samples = [dict(level='FL', spec=specs[0]), dict(level='CL', src_kind=srcs[0]['kind'])]
     out.assumptions += [
         'FITPACK is a Section variable with a tested contract in the wrapper theorems; the exact spline model '
@@ -907,6 +1106,12 @@ def replay(case, out):
     if case['level'] in ('history', 'CL-history'):
         check_history([dict(c, earlier=[]) for c in case.get('earlier', [])], C.Outcome(PROP))   # rebuild the history
         check_history([case], out)
+        return
+    if case['level'] == 'FL-extreme':
+        check_extreme(case, out)
+        return
+    if case['level'] == 'CL-long':
+        check_long(case, out)
         return
     if case['level'] == 'FL':
         if not case['grid']:
